@@ -163,3 +163,16 @@ MUTANTS += [dict(id="harness_probe_mdf_ctor", props=["C08","C09"], file="smpl_ex
         if parent_size % MDF_SECTOR_SIZE == 100:
             raise ValueError("partial raw sector")
 """)]
+
+MUTANTS += [
+    dict(id="c01_stop_at_deleted_entry", props=["C01"], file="smpl_extract/akai/file_entry.py",
+         old="""            if file_entry_container is not None and file_entry_container.start > 0:""",
+         new="""            if file_entry_container is not None and file_entry_container.start <= 0:
+                break
+            if file_entry_container is not None:"""),
+    dict(id="c01_stop_at_inactive_volume", props=["C01"], file="smpl_extract/akai/volume.py",
+         old="""            if volume_type != VolumeType.INACTIVE:""",
+         new="""            if volume_type == VolumeType.INACTIVE and len(volumes) > 0:
+                break
+            if volume_type != VolumeType.INACTIVE:"""),
+]
